@@ -29,7 +29,7 @@ ASSUMPTIONS = ["one corruption at a time", "archives of 3 versions in 2 packages
 
 SPECS = [TaskSpec("e", "run_experiment", []), TaskSpec("f", "run_experiment", [], pkg="p")]
 ARCH_ROWS = [("//:e", 5), ("//:e", 9), ("//p:f", 6)]
-CORRUPTIONS = ("none", "index-removed", "directory-removed", "truncated", "version-already-recorded", "destination-exists")
+CORRUPTIONS = ("none", "index-removed", "directory-removed", "truncated", "version-already-recorded", "destination-exists", "member-header-damaged")
 PRIORS = ("empty", "other-versions")
 _ARCH = {}
 _L = {}
@@ -66,6 +66,19 @@ def build_archive(kind, rows=ARCH_ROWS, tag="A"):
                 shutil.rmtree(os.path.join(x, "e.task.9"))
             os.unlink(arch)
             subprocess.run(["tar", "czf", arch, "-C", x] + sorted(os.listdir(x)), check=True)
+        if kind == "member-header-damaged":
+            # the gzip layer stays intact; one byte of the checksum field of a later member's header is flipped
+            import gzip
+            raw = bytearray(gzip.decompress(open(arch, "rb").read()))
+            off = 0
+            headers = []
+            while off + 512 <= len(raw) and raw[off:off + 512] != b"\0" * 512:
+                size = int(raw[off + 124:off + 136].rstrip(b"\0 ").decode() or "0", 8)
+                headers.append(off)
+                off += 512 + ((size + 511) // 512) * 512
+            victim = headers[-2] if len(headers) >= 2 else headers[-1]
+            raw[victim + 148] = ord("7") if raw[victim + 148] != ord("7") else ord("1")
+            open(arch, "wb").write(gzip.compress(bytes(raw)))
         data = open(arch, "rb").read()
         if kind == "truncated":
             data = data[: int(len(data) * 0.6)]
@@ -100,7 +113,7 @@ def setup(prior, stale, corruption):
         p = subprocess.run(["tar", "xzf", "-", "-C", str(st)], input=other)
         assert p.returncode == 0
     arch = os.path.join(str(proj.root), "incoming.tar.gz")
-    kind = corruption if corruption in ("index-removed", "directory-removed", "truncated") else "none"
+    kind = corruption if corruption in ("index-removed", "directory-removed", "truncated", "member-header-damaged") else "none"
     with open(arch, "wb") as fh:
         fh.write(build_archive(kind))
     return proj, arch
@@ -227,7 +240,7 @@ def spaces(tier):
     _warm()
     goals = ["restore completes", "restore killed midway", "restore fails"]
     sp = [Space("restore-faults", make(QUICK_ONLY),
-                "prior state {empty, other versions} x stale staging bit x 6 corruption kinds x (no kill | kill at every executed "
+                "prior state {empty, other versions} x stale staging bit x 7 corruption kinds x (no kill | kill at every executed "
                 "line of cli/restore.py and execution/version_index.py)", depth="marker", goals=goals, tiers=("quick",),
                 outside=["power loss / fsync", "two corruptions at once", "concurrent invocations"])]
     if tier == "thorough":
